@@ -412,7 +412,7 @@ fn mesh_cases(out: &mut Out, rng: &mut Rng, seed: u64, count: usize, thorough: b
             6 | 7 => rng.range(300, 1500),
             8 => rng.range(1500, 4500),
             _ => {
-                if thorough {
+                if thorough && rng.chance(1, 6) {
                     *rng.pick(&[20_000usize, 70_000])
                 } else {
                     rng.range(4500, 9000)
@@ -441,7 +441,7 @@ fn lz4_cases(out: &mut Out, rng: &mut Rng, seed: u64, count: usize, thorough: bo
             5 => rng.range(65_500, 65_600),
             6 => rng.range(66_000, 140_000),
             _ => {
-                if thorough {
+                if thorough && rng.chance(1, 4) {
                     rng.range(200_000, 1_100_000)
                 } else {
                     rng.range(1000, 30_000)
